@@ -319,6 +319,10 @@ pub enum Op {
     Yield,
     StreamReady { a: usize, k: usize },
     StreamEnd { a: usize },
+    /// `n` stream items become ready at once (an always-ready stream for a while)
+    StreamBurst { a: usize, from: usize, n: usize },
+    /// create a join future, poll it once and keep it pending; it is resumed when the client's program ends
+    JoinPark { h: usize },
     FromRegistry { k: usize, h2: usize },
     Setup { k: usize },
     Register { h: usize, h2: usize, h3: usize },
@@ -346,11 +350,30 @@ thread_local! {
     /// handles whose own latch clone was polled to completion (polling them again is a
     /// contract violation of `Future`, so the interpreter never awaits them a second time)
     pub static DRAINED: RefCell<Vec<usize>> = const { RefCell::new(Vec::new()) };
+    /// join futures polled once and kept pending: (client, operation, future)
+    pub static PARKED: RefCell<Vec<(usize, usize, LocalBoxFuture<'static, Option<String>>)>> = RefCell::new(Vec::new());
+}
+
+/// resume the join futures the client parked (called when its program ends)
+pub async fn resume_parked(c: usize) {
+    loop {
+        let next = PARKED.with(|p| {
+            let mut p = p.borrow_mut();
+            p.iter().position(|x| x.0 == c).map(|i| p.remove(i))
+        });
+        let Some((_, o, f)) = next else { break };
+        let r = f.await;
+        ret(o, match r {
+            Some(d) => format!("some {}", d),
+            None => "none".into(),
+        });
+    }
 }
 pub fn reset_ops() {
     NEXT_OP.with(|n| *n.borrow_mut() = 0);
     PENDING.with(|p| p.borrow_mut().clear());
     DRAINED.with(|p| p.borrow_mut().clear());
+    PARKED.with(|p| p.borrow_mut().clear());
     POOL.with(|p| p.borrow_mut().clear());
     CTXMAP.with(|p| p.borrow_mut().clear());
     STREAMS.with(|p| p.borrow_mut().clear());
@@ -659,6 +682,25 @@ async fn exec_op(c: usize, op: Op) {
                 });
             }
         }
+        Op::JoinPark { h } => {
+            let Some(mut hb) = take(h) else { return };
+            let f = if let HandleBox::Owning(_, ow) = &mut hb {
+                let o = begin(c, h, "join", None);
+                Some((o, ow.join()))
+            } else {
+                None
+            };
+            put(h, hb);
+            if let Some((o, mut f)) = f {
+                match futures::poll!(&mut f) {
+                    std::task::Poll::Ready(r) => ret(o, match r {
+                        Some(d) => format!("some {}", d),
+                        None => "none".into(),
+                    }),
+                    std::task::Poll::Pending => PARKED.with(|p| p.borrow_mut().push((c, o, f))),
+                }
+            }
+        }
         Op::JoinDiscard { h } => {
             let Some(mut hb) = take(h) else { return };
             if let HandleBox::Owning(_, ow) = &mut hb {
@@ -843,6 +885,21 @@ async fn exec_op(c: usize, op: Op) {
                 if !s.ended {
                     s.items.push_back(k);
                     emit(format!("stream {} ready {}", a, k));
+                    if let Some(w) = s.waker.take() {
+                        w.wake();
+                    }
+                }
+            }
+        }
+        Op::StreamBurst { a, from, n } => {
+            let st = STREAMS.with(|s| s.borrow().get(&a).cloned());
+            if let Some(st) = st {
+                let mut s = st.lock().unwrap();
+                if !s.ended {
+                    for k in from..from + n {
+                        s.items.push_back(k);
+                        emit(format!("stream {} ready {}", a, k));
+                    }
                     if let Some(w) = s.waker.take() {
                         w.wake();
                     }
@@ -1039,6 +1096,7 @@ pub fn launch(inner: &Rc<Inner>, prog: &Program) {
                         for op in ops {
                             exec_op(c, op).await;
                         }
+                        resume_parked(c).await;
                         emit(format!("cend {}", c));
                     }),
                 );
@@ -1047,6 +1105,7 @@ pub fn launch(inner: &Rc<Inner>, prog: &Program) {
             for op in first.unwrap_or_default() {
                 exec_op(0, op).await;
             }
+            resume_parked(0).await;
             emit("cend 0".to_string());
         }),
     );
